@@ -114,6 +114,13 @@ def run(facts, chk, tier, only=None):
         else:
             chk.ok('C10.readers', 'C10.readers:update_counts-len', '', 'old counts used only for a capacity hint')
 
+    check_recount(facts, chk, 'C10.recount')
+    check_struct(facts, chk)
+
+
+def check_recount(facts, chk, rule):
+    vc = facts.field_index(MSA, 'variant_count')
+
     # ---------------------------------------------------------------- recount typestate in filter
     def recount():
         f = facts.fn(MSA + '::filter')
@@ -163,21 +170,24 @@ def run(facts, chk, tier, only=None):
                         wrong_between = True
                 res.append((v, rb, node.span, unguarded, wrong_between))
         return res, [t.span for _, t in ucalls]
-    r = chk.guard('C10.recount', 'C10.recount:filter', recount)
+    r = chk.guard(rule, rule + ':filter', recount)
     if r is not None:
         res, sites = r
         bad = [x for x in res if x[3] or x[4]]
         if bad:
             v, rb, sp, ung, wb = bad[0]
-            chk.violation('C10.recount', 'C10.recount:filter', where=sp,
+            chk.violation(rule, rule + ':filter', where=sp,
                           detail='MergeSkaArray::filter reads variant_count (decides `count >= min_count`) with filter_ambig_as_missing=%s '
                                  'without a preceding update_counts(%s) on some path: the counts then come from the file (or an earlier '
                                  'operation) in an unknown counting mode' % (bool(v), 'true' if v else 'false'),
                           construct=dict(function=MSA + '::filter', read=sp, mode=v, recount_sites=sites))
         else:
-            chk.ok('C10.recount', 'C10.recount:filter', res[0][2], 'both modes: every read of variant_count is dominated by update_counts(mode)',
+            chk.ok(rule, rule + ':filter', res[0][2], 'both modes: every read of variant_count is dominated by update_counts(mode)',
                    evals=len(res), sample=dict(function='filter', reads=[x[2] for x in res], recounts=sites))
 
+
+
+def check_struct(facts, chk):
     # ---------------------------------------------------------------- recount after restructuring
     def struct():
         out = []
